@@ -752,12 +752,24 @@ struct Stream {
   int64_t next_entry() { return ci < chunks.size() ? chunks[ci++] : 0; }
 
   // returns bytes transferred, 0 for EOF (input), or -1 with errno set
+  // a descriptor stream honours the O_NONBLOCK state of its handle: chibi switches a port to blocking mode
+  // around C-level reads (sexp_maybe_block_port); a blocking read waits until data is there
+  bool blocking_mode() {
+    if (kind != "fd" || fd < 0) return false;
+    int fl = fcntl(fd, F_GETFL);
+    return fl >= 0 && !(fl & O_NONBLOCK);
+  }
   ssize_t do_read(char* buf, size_t req) {
     calls++;
-    if (kind == "fd" && W.ticks < ready_tick) { errno = EAGAIN; return -1; }
+    bool blk = blocking_mode();
+    if (kind == "fd" && W.ticks < ready_tick) {
+      if (!blk) { errno = EAGAIN; return -1; }
+      ready_tick = 0; W.counters["stream_blocking_wait"]++;
+    }
     size_t remaining = data.size() - pos;
     if (req == 0) return 0;
     int64_t e = next_entry();
+    while (blk && e < 0 && e != STREAM_EIO) { W.counters["stream_blocking_wait"]++; e = next_entry(); }
     if (e == STREAM_EIO) { eios++; W.counters["stream_eio"]++; W.event("stream %s read EIO", name.c_str()); errno = EIO; return -1; }
     if (e < 0) {
       if (kind == "fd" && remaining > 0) {
@@ -782,9 +794,14 @@ struct Stream {
   }
   ssize_t do_write(const char* buf, size_t len) {
     calls++;
-    if (kind == "fd" && W.ticks < ready_tick) { errno = EAGAIN; return -1; }
+    bool blk = blocking_mode();
+    if (kind == "fd" && W.ticks < ready_tick) {
+      if (!blk) { errno = EAGAIN; return -1; }
+      ready_tick = 0; W.counters["stream_blocking_wait"]++;
+    }
     if (len == 0) return 0;
     int64_t e = next_entry();
+    while (blk && e < 0 && e != STREAM_EIO) { W.counters["stream_blocking_wait"]++; e = next_entry(); }
     if (e == STREAM_EIO) { eios++; W.counters["stream_eio"]++; W.event("stream %s write EIO", name.c_str()); errno = EIO; return -1; }
     if (e < 0) {
       if (kind == "fd") {
